@@ -30,7 +30,7 @@ def _c20_case(c):
 LINK = {
     "name": "C20link",
     "proof_files": [],
-    "model_files": ["Generated/GC20.v", "Model/NetURL.v", "Model/Reference.v", "Model/RefOps.v"],
+    "model_files": ["Generated/GC20.v", "Model/NetURL.v", "Model/Reference.v", "Model/RefOps.v", "Model/RefURLGen.v"],
     "extract": "XC20.v",
     "ml_main": "c20_main.ml",
     "harness": "c20link",
@@ -39,8 +39,8 @@ LINK = {
 
 CONFIG = {
     "properties_file": "Properties/C20.v",
-    "proof_files": ["Base/Prelude.v", "Base/Regex.v", "Proofs/Reference.v", "Proofs/RefOps.v", "Proofs/RefURL.v", "Proofs/RefGrammar.v", "Proofs/NetURL.v", "Proofs/RefDescOps.v"],
-    "model_files": ["Generated/GC20.v", "Model/NetURL.v", "Model/Reference.v", "Model/RefOps.v"],
+    "proof_files": ["Base/Prelude.v", "Base/Regex.v", "Proofs/Reference.v", "Proofs/RefOps.v", "Proofs/RefURL.v", "Proofs/RefGrammar.v", "Proofs/NetURL.v", "Proofs/RefDescOps.v", "Proofs/RefURLGen.v"],
+    "model_files": ["Generated/GC20.v", "Model/NetURL.v", "Model/Reference.v", "Model/RefOps.v", "Model/RefURLGen.v"],
     "extract": "XC20.v",
     "ml_main": "c20_main.ml",
     "harness": "c20",
